@@ -11,7 +11,7 @@ import (
 // VGList is an arbitrary ArrayList state: length n <= N, capacity n+spare, spare <= S, arbitrary cells
 // (also beyond the length: the invariant assumed is only 0 <= len <= cap).
 func VGList() (*List[int], []int) {
-	n := v.Split(v.IntIn("n", 0, v.CfgOr("N", 3)), 0, 16)
+	n := v.Split(v.IntIn("n", v.CfgOr("lo", 0), v.CfgOr("N", 3)), 0, 64)
 	spare := v.Split(v.IntIn("spare", 0, v.CfgOr("S", 2)), 0, 16)
 	l := &List[int]{}
 	if n+spare > 0 || v.Bool("nonnil") {
